@@ -103,8 +103,9 @@ class Sched:
                 if self.pos >= len(self.trace) and quiescent:
                     break
                 if quiescent and self.pos < len(self.trace) and self.trace[self.pos]["thread"] in self.finished:
-                    self.error = Divergence(f"step {self.pos}: model schedules {self.trace[self.pos]['thread']} "
-                                            "but that thread has finished in the real code")
+                    th = self.trace[self.pos]['thread']
+                    self.error = Divergence(f"step {self.pos}: model schedules {th} ({self.trace[self.pos].get('label')}) "
+                                            f"but that thread has finished in the real code with {self.finished[th]!r}")
                     break
                 if time.time() > self.deadline:
                     self.error = Divergence(f"replay timed out at step {self.pos}")
